@@ -485,7 +485,7 @@ func (x *Exec) assignTo(lhs ast.Expr, v Val) {
 			i := x.expr(env, l.Index)
 			x.oblige(env, "bounds", l.Pos(), and("(<= 0 "+i.S+")", "(< "+i.S+" "+x.ctx.slLen(base)+")"), "index in range: "+exprStr(l))
 			c := x.convertTo(v, u.Elem())
-			nb := Val{x.ctx.mkSlice(base.Ty, fmt.Sprintf("(store %s %s %s)", x.ctx.slArr(base), i.S, c.S), x.ctx.slLen(base), x.ctx.slNil(base)), base.Ty}
+			nb := Val{x.ctx.mkSlice(base.Ty, fmt.Sprintf("(store %s %s %s)", x.ctx.slArr(base), i.S, c.S), x.ctx.slLen(base), x.ctx.slNil(base), x.ctx.slBid(base)), base.Ty}
 			x.assignTo(l.X, nb)
 		case *types.Array:
 			i := x.expr(env, l.Index)
@@ -986,8 +986,12 @@ func (x *Exec) rangeStmt(n *ast.RangeStmt, st *State, label string) flow {
 	st = x.st
 	ord := fr.loopOrd[n]
 	ms := x.modsOf(fr, n.Body)
-	idxName := fmt.Sprintf("idx%d", ord)
-	rngName := fmt.Sprintf("rng%d", ord)
+	pfx := ""
+	if !fr.top {
+		pfx = fmt.Sprintf("inl%d_%s_", len(x.frames), fr.unit.Obj.Name())
+	}
+	idxName := fmt.Sprintf("%sidx%d", pfx, ord)
+	rngName := fmt.Sprintf("%srng%d", pfx, ord)
 	st.ghost[rngName] = rv
 	ls := &loopSpec{ord: ord, node: n, label: label, mods: ms}
 	defKV := func(s *State, k, v *Val) {
@@ -1052,7 +1056,7 @@ func (x *Exec) rangeStmt(n *ast.RangeStmt, st *State, label string) flow {
 		}
 	case *types.Map:
 		ks := x.ctx.Sort(u.Key())
-		seenName := fmt.Sprintf("seen%d", ord)
+		seenName := fmt.Sprintf("%sseen%d", pfx, ord)
 		empty := fmt.Sprintf("((as const (Array %s Bool)) false)", ks)
 		seenTy := types.NewMap(u.Key(), tBool) // only used for sort bookkeeping
 		_ = seenTy
@@ -1436,14 +1440,15 @@ func (x *Exec) parseModifies(cu *FuncUnit, con *Contract) []modItem {
 				// pkgalias.Type.field
 				if inner, ok := t.X.(*ast.SelectorExpr); ok {
 					if id, ok := inner.X.(*ast.Ident); ok {
-						_, o := cu.Pkg.Types.Scope().LookupParent(id.Name, token.NoPos)
-						if pn, ok := o.(*types.PkgName); ok {
-							if tn, ok := pn.Imported().Scope().Lookup(inner.Sel.Name).(*types.TypeName); ok {
-								obj, _, _ := types.LookupFieldOrMethod(tn.Type(), true, tn.Pkg(), t.Sel.Name)
-								if fv, ok := obj.(*types.Var); ok {
-									items = append(items, modItem{whole: true, field: fv})
-									continue
-								}
+						if tt := x.lookupTypeName(cu, id.Name+"."+inner.Sel.Name); tt != nil {
+							var tpkg *types.Package
+							if nt := namedOf(tt); nt != nil {
+								tpkg = nt.Obj().Pkg()
+							}
+							obj, _, _ := types.LookupFieldOrMethod(tt, true, tpkg, t.Sel.Name)
+							if fv, ok := obj.(*types.Var); ok {
+								items = append(items, modItem{whole: true, field: fv})
+								continue
 							}
 						}
 					}
